@@ -42,6 +42,11 @@ if len(sys.argv) > 1:
     ds = [d for d in ds if d in sys.argv[1:]]
 with ThreadPoolExecutor(max_workers=5) as ex:
     res = list(ex.map(run, ds))
-json.dump(res, open(V + "/seeded/MATRIX.json", "w"), indent=1)
+prev = {}
+if len(sys.argv) > 1 and os.path.exists(V + "/seeded/MATRIX.json"):
+    prev = dict((r["seed"], r) for r in json.load(open(V + "/seeded/MATRIX.json")))
+for r in res:
+    prev[r["seed"]] = r
+json.dump([prev[k] for k in sorted(prev)], open(V + "/seeded/MATRIX.json", "w"), indent=1)
 for r in res:
     print(r["seed"], "applies" if r.get("applies") else "STALE", r.get("caught"))
